@@ -38,6 +38,19 @@ def build_session(rng, sid, cfgdir, pid, nev, cfg=None, secack=None):
         elif k == "tick": s.tick(rng.choice([1, 2, 3]))
         else: s.flush()
         if pid in ("C08", "C07") and rng.random() < 0.1: s.lists()      # trains-on-track list = derived availability
+        if pid == "C19" and rng.random() < 0.12 and s.paths:
+            # reports that arrive while the board or the interface above it is stalled: the mirrors are held and have to go
+            # out - each exactly once - when the stall ends (no flush call in between)
+            b = rng.choice(sorted(s.paths)); pth = s.paths[b]
+            who = pth if rng.random() < 0.6 else pth[:rng.randrange(0, len(pth) + 1)]
+            s.up(who, 0x8e, [1], sv=1)
+            for _ in range(rng.choice([1, 2, 3])):
+                n, ty, d = g.rand_uplink(rng, s)
+                for _ in range(20):
+                    if ty in (0xa0, 0xa1, 0xa2, 0xac) and n == pth: break
+                    n, ty, d = g.rand_uplink(rng, s)
+                if ty != 0x8e: s.up(n, ty, d)
+            s.up(who, 0x8e, [0], sv=0)
         if pid == "C17" and rng.random() < 0.15 and len(holds) < 6: holds.append(s.hold())
         if pid == "C17" and holds and rng.random() < 0.15: s.held(rng.choice(holds))
     s.flush()
